@@ -67,7 +67,9 @@ fn observe(cb: &str, o: &RunOutcome) -> Result<(Vec<u64>, Option<(u64, u64)>), S
                 }
                 let mut hh: Vec<u64> = text(g[0].3).lines().map(|l| col(l, c).parse::<u64>().unwrap_or(u64::MAX) / div).collect();
                 hh.dedup();
-                if hh != hs {
+                // locktime and sequence are 32-bit fields: they carry the height modulo 2^32
+                let hs_seen: Vec<u64> = if div == 1 { hs.iter().map(|h| h & 0xffff_ffff).collect() } else { hs.clone() };
+                if hh != hs_seen {
                     return Err(format!("{} rows reveal heights {:?}, blocks file {:?}", stem, hh, hs));
                 }
             }
@@ -122,7 +124,7 @@ impl Prop for C02 {
         "C02"
     }
     fn rule(&self) -> String {
-        "grid: every chain length T+1 (T in 0..=10) x every accepted option shape (none, -s, -e, -s -e with e up to T+3) x 5 callbacks, one scenario per (T, shape, callback); plus sampled index segments at heights up to 4M with VarInt width boundaries and chains up to 2000 blocks. Marker blocks make every output row reveal its height. Non-trivial = the run was accepted by the CLI and processed at least one block; distinct by scenario document hash.".into()
+        "grid: every chain length T+1 (T in 0..=10) x every accepted option shape (none, -s, -e, -s -e with e up to T+3) x 5 callbacks, one scenario per (T, shape, callback); plus sampled index segments at heights up to 2^40 (VarInt width boundaries, both sides of 2^32) and chains up to 2000 blocks. Marker blocks make every output row reveal its height. Non-trivial = the run was accepted by the CLI and processed at least one block; distinct by scenario document hash.".into()
     }
     fn exhaustive_note(&self) -> Option<String> {
         Some("the (T<=10) x option-shape x callback grid is enumerated completely; high heights and long chains are sampled".into())
@@ -166,7 +168,7 @@ impl Prop for C02 {
             0
         } else {
             // VarInt width boundaries of the height field: 1→2 bytes at 128, 2→3 at 16512, 3→4 at 2113664, 4→5 at 270549120
-            let edges = [127u64, 128, 16511, 16512, 2113663, 2113664, 209_999, 1_000_000, 3_999_990, 16_777_215, 270_549_119, 270_549_120];
+            let edges = [127u64, 128, 16511, 16512, 2113663, 2113664, 209_999, 1_000_000, 3_999_990, 16_777_215, 270_549_119, 270_549_120, 4_294_967_295, 4_294_967_296, 4_294_967_303, 34_630_287_487, 34_630_287_488, 1 << 40];
             let mut b = *rng.pick(&edges);
             if cb == "simplestats" && b > 13_000_000 {
                 b = 3_999_990; // the subsidy shift is defined for 64 halvings only (C15 excludes higher heights)
@@ -225,6 +227,7 @@ impl Prop for C02 {
                     })
                     .collect(),
                 xor_key: None,
+                magic_mode: 0,
                 extra_files: vec![],
             }];
             r.disk_faults = (base..s0).map(|hh| DiskFault::RemoveFile { height: hh }).collect();
@@ -262,6 +265,9 @@ impl Prop for C02 {
         }
         if scn.base_height > 0 {
             st.probe("high_height_segment");
+        }
+        if m.tip() >= 1 << 32 {
+            st.probe("height_beyond_32_bits");
         }
         if !o.exit.ok() {
             v.push(viol(format!("C02/{}/run-failed", cb), format!("accepted range {:?}..{:?} on tip {} exited {:?}: {}", r.start, r.end, m.tip(), o.exit, o.stderr_str())));
